@@ -125,6 +125,14 @@ static Wire access(Reader& r) {
         case 66:{ SparseMatrix S=spK(n,c); FastSparseMatrix F(S); U vs=getU(r); F*vecK(vs); return ok(-1); }
         case 67:{ SparseMatrix S=spK(n,c); U vs=getU(r); S.transpose()*vecK(vs); return ok(-1); }
         case 68:{ SparseMatrix S=spK(n,c); U i=getU(r), vs=getU(r); S.setlin(vecK(vs),i); return ok(-1); }
+        // converting constructors between containers: the source must have a shape the target can hold
+        case 70:{ Matrix M=matK(n,c); SymMatrix S(M); double chk=0; for (size_t k=0;k<S.size();++k) chk+=S.data()[k]; (void)chk; return ok(-1); }
+        case 71:{ SymMatrix S=symK(n); Matrix M(S); return ok((ll)M.nlin()*1000+M.ncol()); }
+        case 72:{ Matrix M=matK(n,c); Vector v(M); return ok((ll)v.size()); }
+        case 73:{ U vs=getU(r); Vector v=vecK(vs); Matrix M(v,n,c); return ok(-1); }
+        case 74:{ SparseMatrix S=spK(n,c); Matrix M(S); return ok((ll)M.nlin()*1000+M.ncol()); }
+        case 75:{ U vs=getU(r); Vector v=vecK(vs); SymMatrix S(v); return ok((ll)S.nlin()); }
+        case 76:{ SymMatrix S=symK(n); Vector v(S); return ok((ll)v.size()); }
         case 53:{ Matrix A=matK(n,c); for (U i=0;i<std::min(n,c);++i) A(i,i)+=1000; A.inverse(); return ok(-1); }
         }
         } catch (std::invalid_argument&) { return Wire{0,-1}; }
